@@ -337,11 +337,88 @@ def r3_5(repo: Repo) -> RuleResult:
     return rr
 
 
-RULES = [r3_1, r3_2, r3_3, r3_4, r3_5]
+def _backward_slice(f: Func, seeds: Set[str]) -> Set[str]:
+    """Names whose values can flow into the seed names (flow-insensitive)."""
+    sl = set(seeds)
+    changed = True
+    while changed:
+        changed = False
+        for n in walk_no_nested(f.node):
+            tgt: List[str] = []
+            src: Set[str] = set()
+            if isinstance(n, ast.Assign):
+                for t in n.targets:
+                    tgt += [x.id for x in ast.walk(t) if isinstance(x, ast.Name) and isinstance(x.ctx, ast.Store)]
+                src = names_in(n.value)
+            elif isinstance(n, ast.AugAssign) and isinstance(n.target, ast.Name):
+                tgt, src = [n.target.id], names_in(n.value)
+            elif isinstance(n, ast.Call) and isinstance(n.func, ast.Attribute) and n.func.attr in ("append", "extend") and isinstance(n.func.value, ast.Name):
+                tgt = [n.func.value.id]
+                for a in n.args:
+                    src |= names_in(a)
+            elif isinstance(n, ast.comprehension):
+                tgt = [x.id for x in ast.walk(n.target) if isinstance(x, ast.Name)]
+                src = names_in(n.iter)
+            if set(tgt) & sl and not src <= sl:
+                sl |= src
+                changed = True
+    return sl
+
+
+def r3_6(repo: Repo) -> RuleResult:
+    rr = RuleResult("R3.6", "the window total that normalises a weight is a total of the mix-weighted kernels", floor=4)
+    app = repo.func("vectorizers/coo_utils.py", "coo_append")
+    for f in build_kernels(repo):
+        calls = [c for c in repo.calls_in(f) if app in repo.resolve_call(f, c)]
+        tup = repo.bind_args(app, calls[0]).get(app.params[1])
+        if not (isinstance(tup, ast.Tuple) and len(tup.elts) == 4):
+            raise AnalysisError("R3.6: %s does not append a (row, col, val, key) tuple" % f.key)
+        sd = single_defs(f)
+        val = tup.elts[2]
+        if isinstance(val, ast.Name) and val.id in sd:
+            val = sd[val.id]
+        divs = [n for n in ast.walk(val) if isinstance(n, ast.BinOp) and isinstance(n.op, ast.Div)]
+        if not divs or not isinstance(divs[0].right, ast.Name):
+            raise AnalysisError("R3.6: the stored value of %s is not `<weight> / <total>`" % f.key)
+        total = divs[0].right.id
+        # the mix weights parameter
+        mix = [p for p in f.params if "mix" in p]
+        if not mix:
+            raise AnalysisError("R3.6: %s has no mix-weight parameter" % f.key)
+        # the weight itself must be mix-weighted ...
+        w_slice = _backward_slice(f, names_in(divs[0].left))
+        # ... and so must every non-constant contribution to the total
+        contribs = []
+        for n in walk_no_nested(f.node):
+            if isinstance(n, ast.Assign) and any(isinstance(t, ast.Name) and t.id == total for t in n.targets) and not isinstance(n.value, ast.Constant):
+                contribs.append(n.value)
+            if isinstance(n, ast.AugAssign) and isinstance(n.target, ast.Name) and n.target.id == total:
+                contribs.append(n.value)
+        construct = "`%s`" % norm(divs[0])
+        problems = []
+        if mix[0] not in w_slice:
+            problems.append("the weight `%s` is not multiplied by %s" % (norm(divs[0].left), mix[0]))
+        if not contribs:
+            problems.append("the total `%s` is never computed" % total)
+        for cexpr in contribs:
+            if mix[0] not in _backward_slice(f, names_in(cexpr)):
+                problems.append("the total `%s` accumulates `%s`, which does not include the mix weights, while the weights it divides do: "
+                                "with mix weights other than 1 an occurrence no longer distributes one unit over its windows" % (total, norm(cexpr)))
+        guard = [n for n in walk_no_nested(f.node) if isinstance(n, ast.If) and norm(n.test) in ("%s <= 0" % total, "%s == 0" % total, "%s <= 0.0" % total)]
+        if not guard:
+            problems.append("no guard against a zero total before the division")
+        if problems:
+            rr.bad(f, construct, "; ".join(problems), divs[0].lineno)
+        else:
+            rr.ok(f, construct, "weight and total both derive from the mix-weighted kernels; zero total guarded", divs[0].lineno)
+    return rr
+
+
+RULES = [r3_1, r3_2, r3_3, r3_4, r3_5, r3_6]
 CLAIM = (
     "R3.1 precision flow: no absolute timestamp is narrowed to float32 before the time difference is formed; R3.2 the three tables "
     "(orientation -> reversal flags, orientation -> column prefixes, reversal flag -> before/after in window_at_index) agree; R3.3 "
     "positional kernel / window argument packing matches the parameter order of every function in each class's registry; R3.4 "
-    "window slices have non-negative lower bounds (clamp or range proof); R3.5 window_at_index takes exactly window_size neighbours adjacent to the index on the chosen side, nearest first."
+    "window slices have non-negative lower bounds (clamp or range proof); R3.5 window_at_index takes exactly window_size neighbours adjacent to the index on the chosen side, nearest first; R3.6 the stored weight and the window total it is divided by both derive from the mix-weighted kernels (backward slices), with a zero-total guard."
 )
 NOT_DECIDED = "the numerical definition itself: kernel formulas, per-occurrence sums, window normalisation totals, the transpose identity."
